@@ -8,7 +8,7 @@ use super::model::{ExpResult, Model};
 use super::ops::{History, Op};
 use crate::evidence::Evidence;
 use crate::known::Known;
-use crate::pool::{self, PoolError};
+use crate::pool;
 use crate::rng::{run_seed, splitmix64};
 use crate::shimapi::{Fault, MODE_COUNT, MODE_ERROR, Shim, Stats};
 use crate::snap::{self, Snap};
@@ -111,6 +111,7 @@ fn exec_on_fresh_thread(
     fault: &Fault,
     rdseed: u64,
 ) -> Result<(Observed, Stats), String> {
+    crate::watchdog::tick();
     shim.set_random(seed, true);
     let wp = SendPtr(std::ptr::from_mut(world));
     let mp = SendPtr(std::ptr::from_ref(model_after).cast_mut());
@@ -471,6 +472,10 @@ pub fn worker_pairs_mode(global_seed: u64, from: u64, to: u64, scratch: &Path, s
 /// Drop prefix steps while some fault position still yields the same violation shape.
 fn minimise(rep: &FaultReplay, scratch: &Path, shim: &Shim) -> FaultReplay {
     let mut best = rep.clone();
+    if rep.signature == "I-fault:crash" {
+        // every candidate would have to run in its own process; keep the history as found
+        return best;
+    }
     let root = scratch.join("min");
     let mut i = 0;
     while i < best.target {
@@ -507,7 +512,10 @@ fn replay_once(rep: &FaultReplay, scratch: &Path, shim: &Shim) -> serde_json::Va
         let Some(mut p) = prepare(&rep.history, rep.target, &root, shim, rep.seed)? else {
             return Ok(None);
         };
-        let o = enumerate_mode(&mut p, shim, rep.seed, Some((rep.k, rep.errno)), rep.frame_mode)?;
+        // a recorded crash/hang has no single fault position: the whole enumeration is re-run
+        // (reproduced iff this process dies again; the caller sees that)
+        let only = if rep.signature == "I-fault:crash" { None } else { Some((rep.k, rep.errno)) };
+        let o = enumerate_mode(&mut p, shim, rep.seed, only, rep.frame_mode)?;
         Ok(o.violation)
     })();
     let _ = snap::wipe(&root);
@@ -574,6 +582,86 @@ pub fn replay_worker(args: &[String]) -> i32 {
     0
 }
 
+/// Run fault-enumeration workers; a worker that dies by a signal (the code under test crashed
+/// or hung until the watchdog aborted it) is isolated pair by pair and reported as a violation
+/// with a replay file instead of failing the whole batch.
+fn run_fault_pool(argvs: Vec<Vec<String>>, frame_mode: bool, max_steps: usize) -> (Vec<FaultSummary>, Vec<FaultReplay>) {
+    let mut sums = Vec::new();
+    let mut crashes = Vec::new();
+    let res: Vec<Result<FaultSummary, pool::WorkerFailure>> = pool::run_workers_detailed(argvs, true);
+    for r in res {
+        match r {
+            Ok(s) => sums.push(s),
+            Err(f) if f.signal.is_some() => {
+                if !crashes.is_empty() {
+                    continue;
+                }
+                match isolate_fault_crash(&f, frame_mode, max_steps) {
+                    Some(rep) => crashes.push(rep),
+                    None => harness_fail(&format!("fault worker died with signal {:?} but no single pair reproduces it: {}", f.signal, f.output)),
+                }
+            }
+            Err(f) => harness_fail(&format!("worker {:?} failed ({:?}): {}", f.argv, f.code, f.output)),
+        }
+    }
+    (sums, crashes)
+}
+
+fn isolate_fault_crash(f: &pool::WorkerFailure, frame_mode: bool, max_steps: usize) -> Option<FaultReplay> {
+    let from: u64 = arg_after(&f.argv, "--from")?.parse().ok()?;
+    let to: u64 = arg_after(&f.argv, "--to")?.parse().ok()?;
+    let mut i = from;
+    while i < to {
+        let batch: Vec<u64> = (i..to.min(i + 32)).collect();
+        let argvs: Vec<Vec<String>> = batch
+            .iter()
+            .map(|k| {
+                let mut v: Vec<String> = ["worker", "e1-fault", "--from", &k.to_string(), "--to", &(k + 1).to_string(), "--id", &format!("iso{k}"), "--max-steps", &max_steps.to_string()]
+                    .iter()
+                    .map(|s| (*s).to_string())
+                    .collect();
+                if frame_mode {
+                    v.push("--frame".into());
+                }
+                v
+            })
+            .collect();
+        let res: Vec<Result<FaultSummary, pool::WorkerFailure>> = pool::run_workers_detailed(argvs, true);
+        for (k, r) in batch.iter().zip(res) {
+            if let Err(fail) = r {
+                if fail.signal.is_some() {
+                    let seed = run_seed(crate::global_seed(), if frame_mode { "e1-fault-frame" } else { "e1-fault" }, *k);
+                    let (mut history, _sw) = generate::gen_history(seed, if frame_mode { Class::C11 } else { Class::Mixed }, max_steps);
+                    let target = if frame_mode { pick_deleting_target(&history) } else { pick_target(&history) }?;
+                    history.ops.truncate(target + 1);
+                    return Some(FaultReplay {
+                        frame_mode,
+                        engine: "e1-fault".into(),
+                        property: if frame_mode { "C11".into() } else { "C12".into() },
+                        seed,
+                        pair_index: *k,
+                        minimised_from_steps: history.ops.len(),
+                        history,
+                        target,
+                        k: 0,
+                        errno: 0,
+                        errno_name: String::new(),
+                        faulted_call: String::new(),
+                        signature: "I-fault:crash".into(),
+                        detail: vec![format!(
+                            "the process executing this history and its fault enumeration died with signal {:?} (the code under test crashed or made no progress until the watchdog aborted it): {}",
+                            fail.signal, fail.output
+                        )],
+                        shim_ring: String::new(),
+                    });
+                }
+            }
+        }
+        i += 32;
+    }
+    None
+}
+
 /// In-process half of the C12 check; returns (summary, violations reported, known hits).
 pub fn run_inprocess(tier: &str) -> (FaultSummary, Vec<(FaultReplay, PathBuf)>, Vec<String>) {
     let pairs: u64 = std::env::var("VERIF_RUNS")
@@ -593,14 +681,12 @@ pub fn run_inprocess(tier: &str) -> (FaultSummary, Vec<(FaultReplay, PathBuf)>, 
             .collect(),
         );
     }
-    let results: Vec<FaultSummary> = match pool::run_workers(argvs, true) {
-        Ok(r) => r,
-        Err(PoolError::Harness(e)) => harness_fail(&e),
-    };
+    let (results, crashes) = run_fault_pool(argvs, false, if tier == "thorough" { 20 } else { 12 });
     let mut sum = FaultSummary::default();
     for r in results {
         sum.merge(r);
     }
+    sum.violations.extend(crashes);
     if !sum.harness_errors.is_empty() {
         for e in sum.harness_errors.iter().take(5) {
             eprintln!("HARNESS-ERROR: {e}");
@@ -664,14 +750,12 @@ pub fn run_frame_faults(tier: &str) -> (FaultSummary, Vec<(FaultReplay, PathBuf)
                 .collect(),
         );
     }
-    let results: Vec<FaultSummary> = match pool::run_workers(argvs, true) {
-        Ok(r) => r,
-        Err(PoolError::Harness(e)) => harness_fail(&e),
-    };
+    let (results, crashes) = run_fault_pool(argvs, true, 14);
     let mut sum = FaultSummary::default();
     for r in results {
         sum.merge(r);
     }
+    sum.violations.extend(crashes);
     if let Some(e) = sum.harness_errors.first() {
         harness_fail(e);
     }
